@@ -64,6 +64,9 @@ add("full", "arbiter", 2, 1, "read", "quick", rlen=1)
 add("full", "shared", 2, 2, "read", "quick", rlen=1)
 add("full", "crossbar", 2, 2, "read", "thorough", rlen=1)
 add("full", "shared", 2, 2, "read", "thorough", rlen=1, pipelined=True)
+# W before AW through the arbiter alone (no decoder, so KF-C08-1 does not apply): must be clean
+add("lite", "arbiter", 2, 1, "write", "quick", w_before_aw=True)
+add("full", "arbiter", 2, 1, "write", "thorough", w_before_aw=True)
 # capabilities tied to known findings
 add("lite", "decoder", 1, 2, "write", "quick", idle0=True)
 add("lite", "shared", 2, 2, "write", "quick", idle0=True)
